@@ -13,7 +13,7 @@ TRUSTED = ['the inertness predicate (harness/props/c14.py:inert, written from th
            'when in doubt a paragraph is skipped) and its Coq twin Proofs/Prose.v:inert_text used by the kernel sweep',
            'the parser and HTML renderer models (tied by X-doc and X-html on the same paragraphs)',
            'vm_compute for the bounded sweep']
-ASSUMPTIONS = ['unbounded theorem for paragraphs of any number of lines with delimiter characters in inert positions (C14_inert_delimiters_pass_through): no backslash, backtick, &, no ]( , no run of * or _ that can close emphasis, each regex span token lacks a character it needs; the class is generated from words such as * ** _ snake_case [ ![ ] [x] f(x)[i] < 2 * 3 *open, decided by an independent flanking predicate (harness), run on the implementation (inert_delimiter_paragraphs), and the theorem\'s computable hypotheses are evaluated in the proof assistant on a sample (..._with_hypotheses_checked_in_the_model)',
+ASSUMPTIONS = ['unbounded theorem for paragraphs of any number of lines with delimiter characters in inert positions (C14_inert_delimiters_pass_through): no backslash or backtick, no & or no ; , no ]( , no run of * or _ that can close emphasis, each regex span token lacks a character it needs; the class is generated from words such as * ** _ snake_case [ ![ ] [x] f(x)[i] < 2 * 3 *open, decided by an independent flanking predicate (harness), run on the implementation (inert_delimiter_paragraphs), and the theorem\'s computable hypotheses are evaluated in the proof assistant on a sample (..._with_hypotheses_checked_in_the_model)',
                'unbounded theorem for paragraphs of any number of trigger-free lines (C14_prose_paragraph_passes_through): first line plain, continuation lines plain and not beginning with = or a list-item marker character; the same class is run on the implementation (plain_paragraphs_of_several_lines)',
                'unbounded theorem (whole pipeline model): a line free of the 14 trigger characters \\ * _ [ ] ! ` ~ < newline $ & { | that begins with a non-marker character '
                'and does not end in white space renders as <p>escaped text</p>, for every modelled token configuration; the random plain-line stream ties '
@@ -149,7 +149,7 @@ def plain_worker(l):
 # ---- the class of C14_inert_delimiters_pass_through, decided independently of the model (ASCII plus a few letters) ----
 INERT_WORDS = ['a', 'word', 'snake_case', 'x_1_y', 'é', '中', '*', '**', '***', '_', '__', '*open', '**open', '_open', '__open', '[', '![', ']', '[x]', '![y]', 'f(x)[i]',
                '<', '2 * 3', 'a_b', '(', ')', '"q"', "it's", 'e.g.', '50%', '@you', '#tag', 'x = y', '[1]', '[^n]', '] [', '!', '!x', 'a*', 'b_', '*em*', '_em_', 'p**', 'x](y', '[z](w)', '>',
-               '(*', '*)', '_)', '(_', '.*', '*.', 'end.', ',', ';', ':', '?', '+', '-', '=', '1.', '2)', '^', '%', '@', '/', '}']
+               '(*', '*)', '_)', '(_', '.*', '*.', 'end.', 'AT&T', '&', '&&', 'a&b', '&amp', ',', ';', ':', '?', '+', '-', '=', '1.', '2)', '^', '%', '@', '/', '}']
 INERT_FIRST = set('abcdefghijklmnopqrstuvwxyzABCDEFGHIJKLMNOPQRSTUVWXYZé中("\'.,;:?)%@^/}')
 
 
@@ -177,7 +177,7 @@ def in_inert_class(lines):
         if not l or '\n' in l or '|' in l or l[-1].isspace() or l[0] not in INERT_FIRST:
             return False
     s = '\n'.join(lines)
-    if any(c in s for c in '\\`&~') or ('<' in s and '>' in s) or '](' in s:
+    if any(c in s for c in '\\`~') or ('<' in s and '>' in s) or ('&' in s and ';' in s) or '](' in s:
         return False
     if any(ord(c) > 127 and c not in 'é中' for c in s):
         return False
